@@ -25,7 +25,7 @@ Language recipe:  {"types": [[name, super|None]...], "assocs": [[name,left,lfiel
 Model recipe   :  the format of mini.build_model.
 """
 from __future__ import annotations
-import sys, os, json, signal, itertools, random
+import sys, os, json, signal, itertools, random, copy
 
 sys.path.insert(0, os.path.dirname(os.path.abspath(__file__)))
 import mini
@@ -188,7 +188,7 @@ class Lang:
                 meta = {"mitre": o["mitre"]} if o.get("mitre") is not None else {}
                 steps.append(mini.attack_step(
                     sn, kind, reaches=None if o.get("r") is None else [to_spec(x) for x in o["r"]],
-                    overrides=o.get("o", True), ttc=TTC[o.get("ttc")],
+                    overrides=o.get("o", True), ttc=copy.deepcopy(TTC[o.get("ttc")]),
                     requires=None if o.get("q") is None else [to_spec(x) for x in o["q"]],
                     tags=o.get("tags") or [], meta=meta))
             vs = [(v, to_spec(e)) for (t, v, e) in self.rec.get("vars", []) if t == n]
